@@ -165,6 +165,18 @@ func (k *Keys) pushBack(keys []byte) {
 	k.buf = append(keys, k.buf...)
 }
 
+// PutBack puts keys that have been popped back in front of the key stack, as not read yet.
+func PutBack(keys *Keys, unread ...byte) {
+	if len(unread) == 0 {
+		return
+	}
+
+	keys.mutex.Lock()
+	defer keys.mutex.Unlock()
+
+	keys.pushBack(unread)
+}
+
 // MatchedPrefix is similar to MatchedKeys, except that the provided keys
 // should not be flushed, since they only matched some binds by prefix and
 // that we need more keys for an exact match (or failure).
